@@ -32,7 +32,7 @@ class C08(Prop):
                 "NV.C08.load_order_tie", "NV.C08.clone_order_tie", "NV.C08.find_or_load_order_tie",
                 "NV.C08.hb_remove_order_tie", "NV.C08.present2_order_tie", "NV.C08.flag_bits_tie", "NV.C08.superWalk_clear", "NV.C08.acyclic_redirect", "NV.C08.init_inv",
                 "NV.C08.objects_order_tie", "NV.C08.hb_ops_tie", "NV.C08.hash_prefix_tie", "NV.C08.add_action_cond_tie",
-                "NV.C08.living_command_cond_tie", "NV.C08.move_cond_tie", "NV.C08.destruct_cond_tie", "NV.C08.inherit_order_tie",
+                "NV.C08.living_command_cond_tie", "NV.C08.move_cond_tie", "NV.C08.destruct_cond_tie", "NV.C08.inherit_order_tie", "NV.C08.set_living_order_tie",
                 "NV.C08.move_walk_terminates", "NV.C08.task_no_hang", "NV.C08.no_hang", "NV.C08.objects_filter_sound",
                 "NV.C08.catch_contains_errors", "NV.C08.catch_restores_guards",
                 "NV.C08.absMap_spec", "NV.C08.lookup_refines_read", "NV.C08.enter_refines_insert",
@@ -286,6 +286,12 @@ class C08(Prop):
         # clone_object: does it clear the load-depth counter before it looks the blueprint up?  (the model follows)
         clone_body = body_of("src/simulate.c", r"\nobject_t \*clone_object \(const char \*str1, int num_arg\) \{")
         clone_clears = bool(re.search(r"\n\s*num_objects_this_thread = 0;", clone_body))
+        orders["setLivingOrder"] = order("lib/lpc/object.c", r"\nvoid set_living_name \(object_t \* ob, char \*str\) \{", [
+            ("destructed-return", r"if \(ob->flags & O_DESTRUCTED\)\s*return;"),
+            ("rename-branch", r"if \(ob->living_name\)"),
+            ("remove-old-name", r"remove_living_name \(ob\);"),
+            ("link-at-head", r"\*hl = ob;"),
+            ("set-name", r"ob->living_name = make_shared_string \(str\);")])
         orders["objectsOrder"] = order("lib/lpc/array.c", r"\nf_objects \(void\)\s*\{", [
             ("collect-loop", r"for \(n = 0, ob = obj_list; ob; ob = ob->next_all\)"),
             ("collect", r"tmp\[n\] = ob;"),
@@ -420,6 +426,11 @@ class C08(Prop):
         mk("catch-variants", """script o3 init ct,err;aa,o3,va\nscript o3 act ct,mv,o4,o4;ct,de,o3\nscript o2 hbeat ct,err;de,o4\nscript o5 create ct,err;ct,mv,o5,o5
             t ld,b0\nt cl,b0\nt cl,b0\nt ec,o4\nt mv,o4,o2\nt mv,o3,o2\nsnap\nt cmd,o4,va\nsnap\nt hbe,o2\ntick\nsnap\nprobe\ntick
             t ct,cl,b0\nt ct,ld,bad\nt ct,mvs,o2,nx\nt ct,mv,o2,o2\nt ct,nop\nt ct,err\nt de,o2\n""" + tail)
+        # an object keeps running after destruct (this_object ()) and calls efuns that would register it again
+        mk("efuns-after-own-destruct", """script o3 init gh,ln,la\nscript o4 act gh,ec\nscript o5 create gh,aa,va\nscript o6 hbeat gh,hbe\nscript o7 mod gh,mv,o2
+            script o8 create gh,ln,lb\nscript o9 id gh,mv,o2\nscript o10 create ln,o10,lc;gh,ln,lc\nscript o11 create ec,o11;gh,ec
+            t ld,b0\nt cl,b0\nt cl,b0\nt ec,o4\nt mv,o4,o2\nt ec,o2\nt mv,o3,o2\nsnap\nprobe\nt fl,la\nt aa,o4,va\nt cmd,o4,va\nsnap\nt cl,b0\nt cl,b0\nt hbe,o6\ntick\nsnap
+            t cl,b0\nt mv,o7,o6\nt de,o6\nsnap\nt cl,b0\nt fl,lb\nt cl,b0\nt mv,o9,o2\nt pr,o2,o9\nt cl,b0\nt fl,lc\nt cl,b0\nprobe\ngc\nt fl,la\nt fl,lb\nt fl,lc\n""" + tail)
         # actions returning 0: user_parser goes on with the next sentence - unless the action removed sentences (error)
         # or destructed the command giver (its sentence list is freed)
         mk("action-destructs-the-command-giver-and-returns-0", """script o4 act de,o3;ret0\nt ld,b0\nt cl,b0\nt cl,b0\nt cl,b0\nt cl,b0
@@ -452,7 +463,7 @@ class C08(Prop):
     OPS = [("ld", 9), ("cl", 14), ("mv", 28), ("de", 9), ("ec", 14), ("dc", 2), ("ln", 4), ("fo", 5), ("fl", 3),
            ("kp", 3), ("rd", 2), ("err", 1), ("aa", 9), ("cmd", 8), ("mvs", 10), ("fis", 3), ("pr", 6), ("hbe", 7), ("hbd", 2), ("obf", 3), ("ct", 4), ("ra", 2)]
     HOPS = [("ld", 5), ("cl", 8), ("mv", 24), ("de", 14), ("ec", 5), ("dc", 1), ("ln", 2), ("fo", 2), ("fl", 1),
-            ("kp", 2), ("rd", 2), ("err", 2), ("mvarg", 6), ("nop", 2), ("aa", 10), ("cmd", 3), ("mvs", 6), ("fis", 2), ("pr", 2), ("hbe", 2), ("hbd", 2), ("obf", 1), ("ct", 6), ("ra", 3), ("ret0", 5)]
+            ("kp", 2), ("rd", 2), ("err", 2), ("mvarg", 6), ("nop", 2), ("aa", 10), ("cmd", 3), ("mvs", 6), ("fis", 2), ("pr", 2), ("hbe", 2), ("hbd", 2), ("obf", 1), ("ct", 6), ("ra", 3), ("ret0", 5), ("gh", 5)]
 
     def gen_op(self, rng, st, table, self_id=None):
         k = rng.weighted(table)
@@ -501,6 +512,12 @@ class C08(Prop):
             return "fis,%s" % rng.weighted([("b%d" % rng.below(st["nbp"]), 6), ("b%d" % (st["nbp"] + rng.below(40)), 6), ("nx", 1)])
         if k in ("de", "ec", "dc", "kp", "hbe", "hbd"):
             return "%s,%s" % (k, oid())
+        if k == "gh" and (self_id is None or self_id < 2):
+            return "nop"    # (the master never destructs itself: the reload of the master is not modelled)
+        if k == "gh":
+            # the executing object destructs itself and then calls one more efun in the same function
+            return "gh," + rng.weighted([("ln,%s" % rng.choice(["la", "lb", "lc"]), 6), ("ec", 3), ("aa,%s" % rng.choice(["va", "vb"]), 3),
+                                         ("hbe", 3), ("mv,%s" % oid(), 3)])
         if k == "ra":
             return "ra,%s,%s" % (oid(), rng.choice(["va", "vb", "vc"]))
         if k == "aa":
@@ -859,6 +876,7 @@ class C08(Prop):
             ("ok", born + ["r ra o3 va 1", "r ra o3 va 0", "r ra o9 va !gone"]),
             ("destructed-visible", dead3 + ["r ra o3 va 0"]),
             ("ok", born + ["new o4 c08/b1", "he o4 create", "mvsb o2 c08/b1", "mvb o2 o3", "r mv o2 o3 ok", "r mvs o2 c08/b1 ok ?", "mvb o4 o2", "err *Can't move object inside itself."]),
+            ("ok", born + ["deb o3", "r de o3 ok", "r gh o3 ln"]),
             ("walker", ["W ot-destructed o2"]),
             ("crash", ["crash signal 11"]),
             ("memory-error", ["sanitizer ERROR: AddressSanitizer: heap-use-after-free"]),
